@@ -188,9 +188,12 @@ func (p *specParser) expr() (*SExpr, error) {
 			if n.k != "id" {
 				return nil, fmt.Errorf("quantifier variable expected")
 			}
-			ty := "int"
-			if p.peek().k == "id" {
-				ty = p.next().s
+			ty := ""
+			for !(p.isOp(",") || p.isOp("::") || p.peek().k == "eof") {
+				ty += p.next().s
+			}
+			if ty == "" {
+				ty = "int"
 			}
 			q.Vars = append(q.Vars, QVar{n.s, ty})
 			if !p.accept(",") {
